@@ -102,6 +102,8 @@ type summary struct {
 	Fired       map[string]uint64 `json:"faults_fired"`
 	CBCalls     uint64            `json:"callback_calls"`
 	GCs         uint64            `json:"gcs"`
+	ClockJumps  uint64            `json:"clock_jumps"`
+	ClockReads  uint64            `json:"clock_reads"`
 	Stalls      uint64            `json:"stalls"`
 	StallOps    uint64            `json:"ops_completed_during_stall"`
 	LockWaits   uint64            `json:"lock_waits"`
@@ -265,6 +267,7 @@ func main() {
 			runtime.GC()
 		}
 	}
+	sum.ClockReads = zsimrt.ClockReads
 	sum.SiteHits = zsimrt.SiteHits
 	sum.PairCount = zsimrt.PairCount()
 	sum.DistinctSig = len(sigs)
@@ -287,6 +290,7 @@ func account(sum *summary, o *Outcome, sigs map[uint64]struct{}, sigFile *bufio.
 	sum.OpsRun += uint64(o.OpsRun)
 	sum.OpsSkipped += uint64(o.Skipped)
 	sum.GCs += o.Stats.GCs
+	sum.ClockJumps += o.Stats.ClockJumps
 	sum.Stalls += o.Stats.Stalls
 	sum.StallOps += o.Stats.StallOps
 	sum.LockWaits += o.Stats.LockWaits
